@@ -161,7 +161,7 @@ def larger_configs(tier):
         # one decoder object in service for a very long time (tens of thousands
         # of tie-breaks): a resource that runs out must not make later decodes fail
         cfgs.append({'decoder': 'SweepMatchDecoder', 'code': 'Toric3DCode', 'size': [3, 3, 3],
-                     'noise': 'Z', 'p': 0.3, '_calls': 12000})
+                     'noise': 'Z', 'p': 0.5, '_calls': 20000})
         cfgs.append({'decoder': 'RotatedSweepMatchDecoder', 'code': 'RotatedPlanar3DCode', 'size': [3, 3, 2],
                      'noise': 'Z', 'p': 0.3, '_calls': 6000})
     for c in cfgs:
